@@ -10,7 +10,60 @@
  * contract leaves only the final iteration visible); "slot 0" logs record the first call only. */
 #ifndef VERIF_ASSUMED_C01_H
 #define VERIF_ASSUMED_C01_H
+/* LOCAL OVERRIDE of two shared contracts (assumed.h is not edited here; to be merged by the lead):
+ *  - secp256k1_ge_set_gej / _var: assumed.h lets the callee change a->infinity; the real functions never write it and
+ *    secp256k1_ecdsa_sig_recover reads it after the call.  The version below adds  a->infinity == old(a->infinity).
+ *    Log modes: LOG_GE_SET_GEJ (slot 0, same ghost names as assumed.h) or LOG_GE_SET_GEJ_LAST (last call, for retry loops).
+ *  - secp256k1_ecmult_gen: only when LOG_ECMULT_GEN_LAST is defined, a LAST-CALL log variant (for retry loops).
+ * The shared declarations are parked on unused names. */
+#include "pre.h"
+#ifdef LOG_GE_SET_GEJ
+# undef LOG_GE_SET_GEJ
+# define VERIF_SG_SLOT0
+#endif
+#define secp256k1_ge_set_gej verif_parked_ge_set_gej
+#define secp256k1_ge_set_gej_var verif_parked_ge_set_gej_var
+#ifdef LOG_ECMULT_GEN_LAST
+# define secp256k1_ecmult_gen verif_parked_ecmult_gen
+#endif
 #include "assumed.h"
+#undef secp256k1_ge_set_gej
+#undef secp256k1_ge_set_gej_var
+#undef secp256k1_ecmult_gen
+
+#if defined(VERIF_SG_SLOT0)
+int g_sg_n; secp256k1_ge g_sg_r0; secp256k1_gej g_sg_a0;
+#define SG2_LOG __CPROVER_assigns(*r, a->x, a->y, a->z, g_sg_n, g_sg_r0, g_sg_a0) __CPROVER_ensures(g_sg_n == __CPROVER_old(g_sg_n) + 1) \
+  __CPROVER_ensures(__CPROVER_old(g_sg_n) == 0 ==> (FE_EQ(g_sg_r0.x, r->x) && FE_EQ(g_sg_r0.y, r->y) && g_sg_r0.infinity == r->infinity && \
+     FE_EQ_OLD(g_sg_a0.x, a->x) && FE_EQ_OLD(g_sg_a0.y, a->y) && FE_EQ_OLD(g_sg_a0.z, a->z) && g_sg_a0.infinity == __CPROVER_old(a->infinity))) \
+  __CPROVER_ensures(__CPROVER_old(g_sg_n) != 0 ==> (FE_KEEP(g_sg_r0.x) && FE_KEEP(g_sg_r0.y) && g_sg_r0.infinity == __CPROVER_old(g_sg_r0.infinity) && \
+     FE_KEEP(g_sg_a0.x) && FE_KEEP(g_sg_a0.y) && FE_KEEP(g_sg_a0.z) && g_sg_a0.infinity == __CPROVER_old(g_sg_a0.infinity)))
+#elif defined(LOG_GE_SET_GEJ_LAST)
+secp256k1_ge g_sgl_r; secp256k1_gej g_sgl_a;
+#define SET_GEJ_LAST_GHOST g_sgl_r, g_sgl_a
+#define SG2_LOG __CPROVER_assigns(*r, a->x, a->y, a->z, g_sgl_r, g_sgl_a) \
+  __CPROVER_ensures(FE_EQ(g_sgl_r.x, r->x) && FE_EQ(g_sgl_r.y, r->y) && g_sgl_r.infinity == r->infinity && \
+     FE_EQ_OLD(g_sgl_a.x, a->x) && FE_EQ_OLD(g_sgl_a.y, a->y) && FE_EQ_OLD(g_sgl_a.z, a->z) && g_sgl_a.infinity == __CPROVER_old(a->infinity))
+#else
+#define SG2_LOG __CPROVER_assigns(*r, a->x, a->y, a->z)
+#endif
+#define SET_GEJ_CONTRACT2 \
+__CPROVER_requires(__CPROVER_w_ok(r, sizeof(*r)) && __CPROVER_rw_ok(a, sizeof(*a)) && gej_ok(a)) \
+SG2_LOG \
+__CPROVER_ensures(ge_ok1(r) && gej_ok(a) && r->infinity == __CPROVER_old(a->infinity) && a->infinity == __CPROVER_old(a->infinity))
+static void secp256k1_ge_set_gej(secp256k1_ge *r, secp256k1_gej *a) SET_GEJ_CONTRACT2;
+static void secp256k1_ge_set_gej_var(secp256k1_ge *r, secp256k1_gej *a) SET_GEJ_CONTRACT2;
+
+#ifdef LOG_ECMULT_GEN_LAST
+secp256k1_scalar g_genl_a; secp256k1_gej g_genl_r; const secp256k1_ecmult_gen_context *g_genl_ctx;
+#define ECMULT_GEN_LAST_GHOST g_genl_a, g_genl_r, g_genl_ctx
+static void secp256k1_ecmult_gen(const secp256k1_ecmult_gen_context *ctx, secp256k1_gej *r, const secp256k1_scalar *a)
+__CPROVER_requires(__CPROVER_w_ok(r, sizeof(*r)) && __CPROVER_r_ok(a, sizeof(*a)) && scalar_ok(a) && __CPROVER_r_ok(ctx, sizeof(*ctx)))
+__CPROVER_assigns(*r, g_genl_a, g_genl_r, g_genl_ctx)
+__CPROVER_ensures(SC_EQ_OLD(g_genl_a, *a) && FE_EQ(g_genl_r.x, r->x) && FE_EQ(g_genl_r.y, r->y) && FE_EQ(g_genl_r.z, r->z) && g_genl_r.infinity == r->infinity && g_genl_ctx == ctx)
+__CPROVER_ensures(gej_ok(r))
+;
+#endif
 
 #define GE_EQ(g, p) (FE_EQ((g).x, (p)->x) && FE_EQ((g).y, (p)->y) && (g).infinity == (p)->infinity)
 #define GE_KEEP(g) (FE_KEEP((g).x) && FE_KEEP((g).y) && (g).infinity == __CPROVER_old((g).infinity))
@@ -33,6 +86,7 @@ __CPROVER_ensures(__CPROVER_old(g_sv_n) != 0 ==> (g_sv_v0 == __CPROVER_old(g_sv_
 #ifdef LOG_SIG_SIGN
 unsigned int g_ss_n; int g_ss_ret, g_ss_has_recid, g_ss_recid; secp256k1_scalar g_ss_sec, g_ss_msg, g_ss_non, g_ss_r, g_ss_s;
 const secp256k1_ecmult_gen_context *g_ss_ctx;
+#define SIG_SIGN_GHOST g_ss_n, g_ss_ret, g_ss_has_recid, g_ss_recid, g_ss_sec, g_ss_msg, g_ss_non, g_ss_r, g_ss_s, g_ss_ctx
 static int secp256k1_ecdsa_sig_sign(const secp256k1_ecmult_gen_context *ctx, secp256k1_scalar *sigr, secp256k1_scalar *sigs, const secp256k1_scalar *seckey, const secp256k1_scalar *message, const secp256k1_scalar *nonce, int *recid)
 __CPROVER_requires(__CPROVER_w_ok(sigr, sizeof(*sigr)) && __CPROVER_w_ok(sigs, sizeof(*sigs)) && __CPROVER_r_ok(seckey, sizeof(*seckey)) && __CPROVER_r_ok(message, sizeof(*message)) && __CPROVER_r_ok(nonce, sizeof(*nonce)))
 __CPROVER_requires(recid == NULL || __CPROVER_w_ok(recid, sizeof(*recid)))
@@ -55,6 +109,8 @@ unsigned int verif_nonce_calls;
 size_t g_nk;
 unsigned int g_nf_impl_n; unsigned int g_nf_counter; const unsigned char *g_nf_msg32, *g_nf_key32, *g_nf_algo16, *g_nf_out; const void *g_nf_data; const secp256k1_hash_ctx *g_nf_hctx;
 unsigned char g_nf_data_byte, g_nf_out_byte;
+unsigned int g_st_n; int g_st_ret;   /* user-callback stub (harness/C01/nonce_stub.c): calls, last return value */
+#define NONCE_FN_GHOST verif_nonce_calls, g_nf_impl_n, g_nf_counter, g_nf_msg32, g_nf_key32, g_nf_algo16, g_nf_out, g_nf_data, g_nf_hctx, g_nf_data_byte, g_nf_out_byte, g_st_n, g_st_ret
 static int nonce_function_rfc6979_impl(const secp256k1_hash_ctx *hash_ctx, unsigned char *nonce32, const unsigned char *msg32, const unsigned char *key32, const unsigned char *algo16, void *data, unsigned int counter)
 __CPROVER_requires(hash_ctx != NULL && __CPROVER_w_ok(nonce32, 32) && __CPROVER_r_ok(msg32, 32) && __CPROVER_r_ok(key32, 32))
 __CPROVER_requires((algo16 == NULL || __CPROVER_r_ok(algo16, 16)) && (data == NULL || __CPROVER_r_ok(data, 32)))
@@ -71,22 +127,23 @@ __CPROVER_ensures(g_nk < 32 ==> g_nf_out_byte == nonce32[g_nk])
 #ifdef LOG_RFC6979_HMAC
 size_t g_ki;
 unsigned int verif_rfc6979_generate_calls;   /* named by the loop invariant in hooks/C01_rfc6979_loop.diff */
-int g_ri_n, g_rf_n, g_rf_gen_before; size_t g_ri_keylen; unsigned char g_ri_byte; const unsigned char *g_ri_key; const secp256k1_hash_ctx *g_ri_hctx; const secp256k1_rfc6979_hmac_sha256 *g_ri_rng;
-int g_rg_bad; unsigned int g_ri_gen_before;
-const unsigned char *g_rg_out; const secp256k1_rfc6979_hmac_sha256 *g_rg_rng, *g_rf_rng; const secp256k1_hash_ctx *g_rg_hctx;
+int g_ri_n, g_rf_n; unsigned int g_rf_gen_before; size_t g_ri_keylen; unsigned char g_ri_byte; const unsigned char *g_ri_key; const secp256k1_hash_ctx *g_ri_hctx; const secp256k1_rfc6979_hmac_sha256 *g_ri_rng;
+unsigned int g_ri_gen_before;
+const unsigned char *g_rg_expect_out; const secp256k1_rfc6979_hmac_sha256 *g_rf_rng;   /* g_rg_expect_out: set by the harness, never assigned by code or contracts */
 static void secp256k1_rfc6979_hmac_sha256_initialize(const secp256k1_hash_ctx *hash_ctx, secp256k1_rfc6979_hmac_sha256 *rng, const unsigned char *key, size_t keylen)
 __CPROVER_requires(hash_ctx != NULL && __CPROVER_w_ok(rng, sizeof(*rng)) && __CPROVER_r_ok(key, keylen))
 __CPROVER_assigns(*rng, g_ri_n, g_ri_keylen, g_ri_byte, g_ri_key, g_ri_hctx, g_ri_rng, g_ri_gen_before)
 __CPROVER_ensures(g_ri_n == __CPROVER_old(g_ri_n) + 1 && g_ri_keylen == keylen && g_ri_key == key && g_ri_hctx == hash_ctx && g_ri_rng == rng && g_ri_gen_before == verif_rfc6979_generate_calls)
 __CPROVER_ensures(g_ki < keylen ==> g_ri_byte == key[g_ki])
 ;
-/* g_rg_bad latches 1 if any generate call has an argument other than (hash ctx / rng of the initialize call, out, 32) expected
- * by the harness: g_rg_out / g_rg_rng / g_rg_hctx are set by the harness before the call and never assigned here. */
+/* The generate calls sit in a for-loop closed by a loop contract, which forgets ghost logs at the loop exit.  The call shape the
+ * harness expects is therefore stated as a PRECONDITION of this contract: it is an obligation at every call site (proved for an
+ * arbitrary iteration), not an assumption. */
 static void secp256k1_rfc6979_hmac_sha256_generate(const secp256k1_hash_ctx *hash_ctx, secp256k1_rfc6979_hmac_sha256 *rng, unsigned char *out, size_t outlen)
 __CPROVER_requires(hash_ctx != NULL && __CPROVER_rw_ok(rng, sizeof(*rng)) && __CPROVER_w_ok(out, outlen))
-__CPROVER_assigns(*rng, __CPROVER_object_upto(out, outlen), verif_rfc6979_generate_calls, g_rg_bad)
+__CPROVER_requires(out == g_rg_expect_out && outlen == 32 && rng == g_ri_rng && hash_ctx == g_ri_hctx && g_ri_n == 1 && g_rf_n == 0)
+__CPROVER_assigns(*rng, __CPROVER_object_upto(out, outlen), verif_rfc6979_generate_calls)
 __CPROVER_ensures(verif_rfc6979_generate_calls == __CPROVER_old(verif_rfc6979_generate_calls) + 1)
-__CPROVER_ensures(g_rg_bad == (__CPROVER_old(g_rg_bad) || out != g_rg_out || outlen != 32 || rng != g_ri_rng || hash_ctx != g_ri_hctx || g_ri_n != 1 || g_rf_n != 0))
 ;
 static void secp256k1_rfc6979_hmac_sha256_finalize(secp256k1_rfc6979_hmac_sha256 *rng)
 __CPROVER_requires(__CPROVER_rw_ok(rng, sizeof(*rng)))
